@@ -181,6 +181,20 @@ def rules(vb: VB, features, group):
     add(decl("T", "String", "sanitize(trim), sanitize(lowercase)"), R, "R5:repeated-sanitize-block")
     add(decl("T", "i32", "derive(Debug), derive(Clone)"), R, "R5:repeated-derive-block")
     add(decl("T", "i32", "derive(Default), default = 1, default = 2"), R, "R5:repeated-default")
+    # a repeated block in every order with any subset of the other blocks around / between the two occurrences
+    blocks = {"sanitize": ("sanitize(with = |x| x.wrapping_add(1))", "sanitize(with = |x| x.wrapping_mul(2))"), "validate": ("validate(greater = 1)", "validate(less = 50)"),
+              "derive": ("derive(Debug, Default)", "derive(Clone)"), "default": ("default = 7", "default = 8")}
+    for rb, (t1, t2) in blocks.items():
+        others = [k for k in blocks if k != rb]
+        for k in range(0, 4):
+            for sub in itertools.combinations(others, k):
+                if ("default" in sub or rb == "default") and not ("derive" in sub or rb == "derive"):
+                    continue
+                for perm in itertools.permutations(("#1", "#2") + sub):
+                    if perm.index("#1") > perm.index("#2"):
+                        continue
+                    attrs = ", ".join(t1 if x == "#1" else t2 if x == "#2" else blocks[x][0] for x in perm)
+                    add(decl("T", "i32", attrs), R, "R5:repeated-%s-block:%s" % (rb, "-".join(x if x[0] != "#" else rb for x in perm)))
     add(decl("T", "i32", "validate(greater = 1, less = 5)"), A, "R5:neighbour:both-bounds-once")
     # R6 lowercase + uppercase
     add(decl("T", "String", "sanitize(lowercase, uppercase)"), R, "R6:lowercase+uppercase")
@@ -231,6 +245,46 @@ def rules(vb: VB, features, group):
     add(decl("T", "String", "validate(len_char_min = 5, len_char_max = 3)"), R, "R7:len-bounds")
     add(decl("T", "String", "validate(len_char_max = 3, len_char_min = 5)"), R, "R7:len-bounds")
     add(decl("T", "String", "validate(len_char_min = 3, len_char_max = 3)"), A, "R7:len-bounds-equal")
+    # bound spellings x the code generators that splice the bound into their own code (Arbitrary, Display of the error, planted tests): all well-formed
+    arb = ", Arbitrary" if "arbitrary" in features else ""
+    ipre = "const K: i32 = 10; const A: i32 = 1; const B: i32 = 6;\n"
+    int_sp = ["K", "-K", "K + 1", "K - 1", "1 << 4", "A | B", "(K)", "{ K }", "K * 2", "i32::MIN + 5", "0x0F", "-(1 << 2)", "(1 << 4) - 1", "if K > 5 { 7 } else { 3 }", "K as i32", "!0 - 5", "1 + 2", "-1 + 10",
+              "K.pow(2)", "i32::from(3i8)", "[1, 2, 3][1]", "(1, 2).1", "K / 3", "K % 3", "K ^ 3", "K & 6", "-K + 1", "- 5", "-(5)", "1_0"]
+    for sp in int_sp:
+        for kinds in (("greater",), ("greater_or_equal",), ("less",), ("less_or_equal",), ("greater_or_equal", "less_or_equal"), ("greater", "less"), ("less", "greater_or_equal")):
+            parts = []
+            for k in kinds:
+                if len(kinds) == 1 or k.startswith("greater"):
+                    parts.append("%s = %s" % (k, sp))
+                else:
+                    parts.append("%s = 1000" % k)
+            add(decl("T", "i32", "validate(%s), derive(Debug, Display, FromStr%s)" % (", ".join(parts), arb), pre=ipre), A, "spelling-x-generators:int:%s:%s" % ("+".join(kinds), sp))
+    fpre = "const F: f64 = 4.0;\n"
+    float_sp = ["F", "-F", "F + 1.0", "F - 1.0", "1.0 + 2.0", "-1.0 + 10.0", "(F)", "{ F }", "F * 2.0", "2.5e0", "3", "f64::EPSILON", "F / 3.0", "-(F - 1.0)", "(F + 1.0)", "-F + 1.0", "F.sqrt()", "f64::from(3u8)",
+                "if F > 1.0 { 2.0 } else { 3.0 }", "3 as f64", "- 5.0", "-(5.0)", "1_0.5", "[1.0, 2.0][1]"]
+    for sp in float_sp:
+        for kinds in (("greater",), ("greater_or_equal",), ("less",), ("less_or_equal",), ("greater_or_equal", "less_or_equal"), ("greater", "less"), ("less", "greater_or_equal"), ("finite", "greater", "less_or_equal")):
+            parts = []
+            for k in kinds:
+                if k == "finite":
+                    parts.append(k)
+                elif len(kinds) == 1 or k.startswith("greater"):
+                    parts.append("%s = %s" % (k, sp))
+                else:
+                    parts.append("%s = %s" % (k, "1000.0" if len(parts) % 2 == 0 else "500.0 + 500.0"))
+            add(decl("T", "f64", "validate(%s), derive(Debug, Display, FromStr%s)" % (", ".join(parts), arb), pre=fpre), A, "spelling-x-generators:float:%s:%s" % ("+".join(kinds), sp))
+    spre = "const N: usize = 3; const M: usize = 20;\n"
+    for sp in ["N", "N + 1", "(N)", "{ N }", "N * 2", "1 << 2", "N | 4", "M - N", "usize::MIN + 2", "if N > 1 { 2 } else { 1 }", "N as usize", "1 + 2", "[1, 2, 3][1]", "N.pow(2)", "0x03", "M / 4"]:
+        for kinds in (("len_char_min",), ("len_char_max",), ("len_char_min", "len_char_max"), ("len_char_max", "len_char_min"), ("not_empty", "len_char_min")):
+            parts = []
+            for k in kinds:
+                if k == "not_empty":
+                    parts.append(k)
+                elif len(kinds) == 1 or k == "len_char_min":
+                    parts.append("%s = %s" % (k, sp))
+                else:
+                    parts.append("%s = 50" % k)
+            add(decl("T", "String", "sanitize(trim), validate(%s), derive(Debug, Display, FromStr%s)" % (", ".join(parts), arb), pre=spre), A, "spelling-x-generators:string:%s:%s" % ("+".join(kinds), sp))
     # R8 with / error
     ci = custom_items("int")
     add(decl("T", "i32", "validate(with = check)", pre=ci), R, "R8:with-without-error")
